@@ -788,7 +788,7 @@ func (fc *funcContext) translateResults(results []ast.Expr) string {
 		if results != nil {
 			result = results[0]
 		}
-		v := fc.translateImplicitConversion(result, tuple.At(0).Type())
+		v := fc.translateImplicitConversionWithCloning(result, tuple.At(0).Type())
 		fc.delayedOutput = nil
 		return " " + v.String()
 	default:
@@ -820,7 +820,7 @@ func (fc *funcContext) translateResults(results []ast.Expr) string {
 			if results != nil {
 				result = results[i]
 			}
-			values[i] = fc.translateImplicitConversion(result, tuple.At(i).Type()).String()
+			values[i] = fc.translateImplicitConversionWithCloning(result, tuple.At(i).Type()).String()
 		}
 		fc.delayedOutput = nil
 		return " [" + strings.Join(values, ", ") + "]"
